@@ -5,7 +5,7 @@ import ast
 import itertools
 from typing import Dict, List, Optional, Set, Tuple
 
-from .. import q
+from .. import pat, q
 from ..boolterm import Converter, Undecided, atom, equivalent, head_name, mk, show
 from ..core import AnchorError, ClassInfo, Ctx, FuncInfo, dotted, guard_facts, norm, returns_or_raises_everywhere, walk_no_nested
 from . import c09
@@ -102,8 +102,15 @@ def check_closed(ctx: Ctx, te: FuncInfo, ts: FuncInfo):
     # translate_statement: Assign rejects multi-target / non-name
     for test, body in q.if_chain([s for s in ts.body if isinstance(s, ast.If)][-1])[0]:
         if "ast.Assign" in norm(test):
-            txt = " ".join(norm(s) for s in body)
-            ctx.check("len(stmt.targets) > 1" in txt and "isinstance(stmt.targets[0], ast.Name)" in txt, "DP-CLOSED", ts, "Assign: multiple / non-name targets rejected", "", "", test)
+            S = ts.params[0]
+            uses = [n for s_ in body for n in ast.walk(s_) if isinstance(n, ast.Attribute) and n.attr == "id" and pat.t(n.value) == f"{S}.targets[0]"]
+            if not uses:
+                ctx.undecided(ts.short, "Assign: the target name is not read as `<stmt>.targets[0].id`")
+            else:
+                facts = [(pat.t(e), pol) for e, pol in guard_facts(ts, uses[0])]
+                one = any((not pol) and f in (f"len({S}.targets)>1", f"len({S}.targets)!=1") for f, pol in facts) or any(pol and f == f"len({S}.targets)==1" for f, pol in facts)
+                name = any(pol and f == f"isinstance({S}.targets[0],ast.Name)" for f, pol in facts)
+                ctx.check(one and name, "DP-CLOSED", ts, "Assign: multiple / non-name targets rejected", "", f"the target name is used without `{'more than one target' if not one else 'a non-name target'}` having been rejected first (guards {facts}): `a = b = e` / `a[0] = e` / `a.x = e` would be translated as if they were `a = e`", uses[0])
         if "ast.If" in norm(test):
             ctx.check(any(isinstance(s, ast.Raise) for s in body), "DP-CLOSED", ts, "If statements that survive normalisation are rejected", "", "", test)
 
@@ -235,11 +242,15 @@ def check_ops_constantfolder(ctx: Ctx):
                     ctx.check(op_ok(kn, impl), "DP-OPS", mi, f"{kn} -> {impl}", "", f"ast.{kn} is folded with `{impl}`, which is a different operator", v)
                 n += 1
         # operands in order
-        txt = norm(mi.node)
+        tbl = [n.targets[0].id for n in walk_no_nested(mi.node) if isinstance(n, ast.Assign) and isinstance(n.targets[0], ast.Name) and any(isinstance(x, ast.Dict) for x in ast.walk(n.value))]
+        is_op = lambda c: isinstance(c.func, ast.Name) and c.func.id in tbl
         if mn == "visit_BinOp":
-            ctx.check("op(node.left.value, node.right.value)" in txt, "DP-OPS", mi, "operands in source order", "", "left/right operands are not applied in order", mi.node)
+            pat.args_rule(ctx, "DP-OPS", mi, "operands in source order", is_op, ["node.left.value", "node.right.value"], "the folded operator is not applied as op(left, right)", what="application of the looked-up operator")
         if mn == "visit_Compare":
-            ctx.check("op(node.left.value, node.comparators[0].value)" in txt and "len(node.ops) == 1" in txt, "DP-OPS", mi, "single comparison, operands in source order", "", "", mi.node)
+            c = pat.args_rule(ctx, "DP-OPS", mi, "single comparison, operands in source order", is_op, ["node.left.value", "node.comparators[0].value"], "the folded comparison is not applied as op(left, comparator)", what="application of the looked-up operator")
+            if c is not None:
+                facts = [(pat.t(e), pol) for e, pol in guard_facts(mi, c)]
+                ctx.check(any(pol and f in ("len(node.ops)==1", "len(node.comparators)==1") for f, pol in facts), "DP-OPS", mi, "only single comparisons are folded", "", f"a chained comparison `a < b < c` would be folded from its first pair only (guards {facts})", c)
     if n < 25:
         raise AnchorError(CF, f"only {n} operator table entries found (26 confirmed by hand)")
     ini = ci.methods.get("__init__")
@@ -346,26 +357,43 @@ def check_builtin_expansions(ctx: Ctx):
         raise AnchorError(f"{RW}.{suffix}", "not found")
 
     aa = meth("call_anyall")
-    t = [x for x in walk_no_nested(aa.node) if isinstance(x, ast.IfExp)]
-    ok = len(t) == 1 and norm(t[0].test) == "node.func.id == 'any'" and norm(t[0].body) == "ast.Or()" and norm(t[0].orelse) == "ast.And()"
-    ctx.check(ok, "DP-OPS", aa, "any -> or, all -> and", "", "any/all are expanded with the wrong connective", aa.node)
-    ctx.check("ast.BoolOp(op=op, values=args)" in norm(aa.node), "DP-OPS", aa, "over every element", "", "", aa.node)
+    anyall_op = lambda e: isinstance(e, ast.IfExp) and (
+        (pat.t(e.test) in ("node.func.id=='any'", "'any'==node.func.id") and pat.t(e.body) == "ast.Or()" and pat.t(e.orelse) == "ast.And()")
+        or (pat.t(e.test) in ("node.func.id=='all'", "'all'==node.func.id") and pat.t(e.body) == "ast.And()" and pat.t(e.orelse) == "ast.Or()")
+    )
+    pat.term_rule(ctx, "DP-OPS", aa, "any -> or, all -> and, over every unrolled element", "BoolOp", {"op": anyall_op, "values": lambda e: pat.t(e).endswith("unroll_arg(node.args[0])")}, "any/all are expanded with the wrong connective or not over the unrolled elements of the argument")
     mm = meth("call_minmax")
-    t = [x for x in walk_no_nested(mm.node) if isinstance(x, ast.IfExp) and "max" in norm(x.test)]
-    ok = len(t) == 1 and norm(t[0].test) == "node.func.id == 'max'" and norm(t[0].body) in ("ast.Gt()", "ast.GtE()") and norm(t[0].orelse) in ("ast.LtE()", "ast.Lt()")
-    ctx.check(ok, "DP-OPS", mm, "max -> greater-than selection, min -> less-than selection", "", f"min/max select with `{norm(t[0]) if t else '?'}`", mm.node)
+    sel = [x for x in walk_no_nested(mm.node) if isinstance(x, ast.IfExp) and "max" in norm(x.test)]
+    ok = len(sel) == 1 and norm(sel[0].test) == "node.func.id == 'max'" and norm(sel[0].body) in ("ast.Gt()", "ast.GtE()") and norm(sel[0].orelse) in ("ast.LtE()", "ast.Lt()")
+    pat.frag_rule(ctx, "DP-OPS", mm, "max -> greater-than selection, min -> less-than selection", ok, [(len(sel) == 1, f"min/max select with `{norm(sel[0]) if sel else '?'}`")], mm.node)
     it = mm.nested.get("iterif")
-    txt = norm(it.node).replace(" ", "") if it else ""
-    ok = "ast.Compare(left=arg_l[0],ops=[op],comparators=[l_it])" in txt and "forl_itinarg_l[1:]" in txt and "ast.IfExp(test=comp,body=arg_l[0],orelse=iterif(arg_l[1:]))" in txt and "ast.BoolOp(op=ast.And(),values=comps)" in txt
-    ctx.check(ok, "MP-polarity", mm, "first element wins iff it beats every other, else recurse on the rest", "", "the min/max selection chain is mis-wired", mm.node)
+    if it is None:
+        ctx.undecided(mm.short, "selection chain helper not found")
+    else:
+        P = it.params[0]
+        opname = sel[0] and [n.targets[0].id for n in walk_no_nested(mm.node) if isinstance(n, ast.Assign) and n.value is sel[0] and isinstance(n.targets[0], ast.Name)] if sel else []
+        opname = opname[0] if opname else "op"
+        comps = [c for c in ast.walk(it.node) if isinstance(c, (ast.ListComp, ast.GeneratorExp)) and pat.ctor_name(c.elt) == "Compare"]
+        if len(comps) != 1:
+            ctx.undecided(it.short, "the comparisons of the first element with the others are not built by one comprehension")
+        else:
+            g = comps[0].generators[0]
+            ctx.check(pat.t(g.iter) == f"{P}[1:]" and not g.ifs, "MP-polarity", mm, "the first element is compared with every other element", norm(g.iter), f"the comparisons range over `{norm(g.iter)}`{' with a filter' if g.ifs else ''}, not over every other element", comps[0])
+            pat.term_rule(ctx, "MP-polarity", mm, "comparison: first element <op> other element", "Compare", {"left": f"{P}[0]", "ops": f"[{opname}]", "comparators": f"[{pat.t(g.target)}]"}, "the comparison does not put the first element on the left and the other element on the right with the selected operator", root=comps[0])
+        pat.term_rule(ctx, "MP-polarity", mm, "all comparisons must hold", "BoolOp", {"op": "ast.And()", "values": lambda e: e is not None and (comps and e is comps[0])}, "the comparisons are not combined with `and` over all of them", root=it.node)
+        pat.term_rule(ctx, "MP-polarity", mm, "first element wins iff it beats every other, else recurse on the rest", "IfExp", {"test": lambda e: pat.ctor_name(e) == "BoolOp", "body": f"{P}[0]", "orelse": f"{it.name}({P}[1:])"}, "the min/max selection chain is mis-wired", root=it.node)
     sm = meth("call_sum")
     it = sm.nested.get("iterif")
-    ok = it is not None and "ast.BinOp(left=arg_l[0],op=ast.Add(),right=iterif(arg_l[1:]))" in norm(it.node).replace(" ", "")
-    ctx.check(ok, "DP-OPS", sm, "sum -> chain of + over every element", "", "", sm.node)
+    if it is None:
+        ctx.undecided(sm.short, "sum chain helper not found")
+    else:
+        P = it.params[0]
+        pat.term_rule(ctx, "DP-OPS", sm, "sum -> chain of + over every element", "BinOp", {"left": f"{P}[0]", "op": "ast.Add()", "right": f"{it.name}({P}[1:])"}, "sum is not expanded to element0 + sum(rest)", root=it.node)
+        calls = [c for c in q.calls(sm.node, nested=False) if isinstance(c.func, ast.Name) and c.func.id == it.name]
+        binds = pat.bindings(sm.node)
+        ctx.check(len(calls) == 1 and pat.t(pat.look_through(calls[0].args[0], binds)).endswith("unroll_arg(node.args[0])"), "DP-OPS", sm, "the chain starts from all unrolled elements of the argument", "", "the sum chain is not started on the unrolled elements of the argument", sm.node)
     vb = ci.methods.get("visit_BinOp")
-    txt = norm(vb.node).replace(" ", "")
-    ok = "isinstance(node.op,ast.Pow)" in txt and "for_inrange(node.right.value-1)" in txt and "result=ast.BinOp(left=result,op=ast.Mult(),right=node.left)" in txt and "result=node.left" in txt and "returnast.Constant(value=1)" in txt
-    ctx.check(ok, "DP-OPS", vb, "a ** n -> n-1 multiplications by a; a ** 0 -> 1", "", "the power expansion multiplies the wrong number of times or by the wrong operand", vb.node)
+    check_pow(ctx, vb)
     # dispatch names
     vc = ci.methods.get("visit_Call")
     for iff in [x for x in walk_no_nested(vc.node) if isinstance(x, ast.If) and "node.func.id" in norm(x.test)]:
@@ -379,13 +407,18 @@ def check_builtin_expansions(ctx: Ctx):
         ok = ok and ((callee == "anyall") == (sorted(names) == ["all", "any"])) and ((callee == "minmax") == (sorted(names) == ["max", "min"]))
         ctx.check(ok, "DP-OPS", vc, f"{'/'.join(names)} -> __call_{callee}", "", f"builtin(s) {names} are expanded by __call_{callee}", iff)
     aug = ci.methods.get("visit_AugAssign")
-    ok = "ast.BinOp(left=node.target,op=node.op,right=node.value)" in norm(aug.node).replace(" ", "")
-    ctx.check(ok, "MP-polarity", aug, "a op= b -> a op b (target on the left)", "", "the augmented assignment is expanded with swapped operands or another operator", aug.node)
+    pat.term_rule(ctx, "MP-polarity", aug, "a op= b -> a op b (target on the left)", "BinOp", {"left": "node.target", "op": "node.op", "right": "node.value"}, "the augmented assignment is expanded with swapped operands or another operator")
     ln = meth("call_len")
-    ctx.check("ast.Constant(value=len(args))" in norm(ln.node), "DP-OPS", ln, "len -> number of unrolled elements", "", "", ln.node)
+    pat.term_rule(ctx, "DP-OPS", ln, "len -> number of unrolled elements", "Constant", {"value": lambda e: isinstance(e, ast.Call) and pat.t(e.func) == "len" and len(e.args) == 1 and pat.t(pat.look_through(e.args[0], pat.bindings(ln.node))).endswith("unroll_arg(node.args[0])")}, "len() is not folded to the number of unrolled elements of its argument")
     for nm in ("call_ord", "call_chr"):
         m = meth(nm)
-        ctx.check(norm(q.returns(m)[0].value) == "node.args[0]" and "len(node.args) != 1" in norm(m.node), "DP-OPS", m, f"{nm[5:]} is the identity on the 8-bit encoding", "", "", m.node)
+        rets = q.returns(m)
+        if len(rets) != 1:
+            ctx.undecided(m.short, f"{nm[5:]}: {len(rets)} returns")
+            continue
+        facts = [(pat.t(e), pol) for e, pol in guard_facts(m, rets[0])]
+        ctx.check(pat.t(rets[0].value) == "node.args[0]", "DP-OPS", m, f"{nm[5:]} is the identity on the 8-bit encoding", norm(rets[0]), f"`{norm(rets[0])}`: {nm[5:]}(x) must translate to x itself (Qchar and its code share one encoding)", rets[0])
+        ctx.check(any((not pol) and f == "len(node.args)!=1" for f, pol in facts) or any(pol and f == "len(node.args)==1" for f, pol in facts), "DP-OPS", m, f"{nm[5:]} takes exactly one argument", "", f"extra arguments of {nm[5:]}() would be dropped silently (guards {facts})", rets[0])
 
 
 # ------------------------------------------------------------------------------------- comparators
@@ -507,8 +540,19 @@ def check_antisym(ctx: Ctx, gt: FuncInfo):
     left_wider = n1 if g1 else n2
     right_wider = n2 if g1 else n1
     lw, rw = " ".join(norm(s) for s in left_wider.body), " ".join(norm(s) for s in right_wider.body)
-    ctx.check("Or(ex, x)" in lw, "SB-ANTISYM", gt, "extra high bits on the left make it greater", lw[:60], "", left_wider)
-    ctx.check("And(ex, Not(x))" in rw, "SB-ANTISYM", gt, "extra high bits on the right make it not greater", rw[:60], f"the wider-right case does `{rw[:70]}`", right_wider)
+    for blk, want_op, neg, role, why in (
+        (left_wider, "Or", False, "extra high bits on the left make it greater", "a set excess bit of the LEFT operand must make `left > right` true"),
+        (right_wider, "And", True, "extra high bits on the right make it not greater", "a set excess bit of the RIGHT operand must make `left > right` false"),
+    ):
+        inner = q.for_loops(blk, nested=True)
+        fs = q.fold_step(inner[0]) if len(inner) == 1 else None
+        if fs is None or not isinstance(inner[0].target, ast.Name):
+            ctx.undecided(gt.short, f"{role}: the excess-bit block is not a single fold loop")
+            continue
+        acc, op, term = fs
+        x = inner[0].target.id
+        good = op == want_op and pat.t(term) == (f"Not({x})" if neg else x)
+        ctx.check(good, "SB-ANTISYM", gt, role, norm(inner[0].body[0]), f"`{norm(inner[0].body[0])}`: {why}", blk)
 
 
 def check_gt_core(ctx: Ctx, gt: FuncInfo):
@@ -520,9 +564,24 @@ def check_gt_core(ctx: Ctx, gt: FuncInfo):
     core, par = q.reversal_parity(l.iter)
     ctx.check(par == 1, "SB-ORDER3", gt, "bits scanned from the most significant down", norm(l.iter), f"`{norm(l.iter)}` scans LSB-first lists without reversing: the least significant differing bit would decide", l)
     a, b = (norm(e) for e in l.target.elts)
-    txt = norm(l).replace(" ", "")
-    ok = f"And({a},Not({b}))" in txt and f"prev.append(_eq({a},{b}))" in txt and f"Or(ex,And(*prev+[{a},Not({b})]))" in txt
-    ctx.check(ok, "SB-ORDER3", gt, "greater at bit k iff all higher bits equal, a_k set and b_k clear", "", "the per-bit term of gt is not `higher bits equal & a_k & ~b_k`", l)
+    role = "greater at bit k iff all higher bits equal, a_k set and b_k clear"
+    is_and = lambda c: isinstance(c.func, ast.Name) and c.func.id == "And"
+    first = pat.args_rule(ctx, "SB-ORDER3", gt, "most significant bit: greater iff a set and b clear", lambda c: is_and(c) and not any(isinstance(x, ast.Starred) for x in c.args), [a, f"Not({b})"], f"the first per-bit term of gt is not `{a} & ~{b}`", root=l, what="And(a, Not(b)) term")
+    star = [c for c in q.calls(l) if is_and(c) and len(c.args) == 1 and isinstance(c.args[0], ast.Starred)]
+    if len(star) != 1:
+        ctx.undecided(gt.short, f"{role}: no single And(*<higher bits equal> + [...]) term")
+    else:
+        inner = star[0].args[0].value
+        ok = isinstance(inner, ast.BinOp) and isinstance(inner.op, ast.Add) and isinstance(inner.left, ast.Name) and isinstance(inner.right, ast.List) and sorted(pat.t(e) for e in inner.right.elts) == sorted([a, f"Not({b})"])
+        prev = inner.left.id if ok else None
+        ctx.check(ok, "SB-ORDER3", gt, role, norm(star[0]), f"`{norm(star[0])}` is not `higher bits equal & {a} & ~{b}`", star[0])
+        if prev:
+            app = [c for c in q.method_calls(l, "append") if norm(c.func.value) == prev]
+            good = len(app) == 1 and isinstance(app[0].args[0], ast.Call) and pat.t(app[0].args[0].func) == "_eq" and sorted(pat.t(x) for x in app[0].args[0].args) == sorted([a, b])
+            ctx.check(good, "SB-ORDER3", gt, "every scanned bit pair joins the `higher bits equal` list", norm(app[0]) if app else "", f"`{prev}` does not collect _eq({a}, {b}) for every scanned pair", app[0] if app else l)
+            par_or = gt.pm.get(star[0])
+            good = isinstance(par_or, ast.Call) and pat.t(par_or.func) == "Or" and len(par_or.args) == 2 and isinstance(gt.pm.get(par_or), ast.Assign) and norm(gt.pm.get(par_or).targets[0]) in [norm(x) for x in par_or.args]
+            ctx.check(good, "SB-ORDER3", gt, "per-bit terms are or-ed into the result", norm(par_or)[:60] if par_or is not None else "", "the per-bit term is not or-ed into the accumulated result", star[0])
     z = [c for c in q.calls(l.iter) if isinstance(c.func, ast.Name) and c.func.id == "zip"]
     zargs = [norm(x) for x in z[0].args] if z else []
     ctx.check(len(zargs) == 2 and ("tleft" in zargs[0] or "tl_" in zargs[0]) and ("tcomp" in zargs[1] or "tc_" in zargs[1]), "SB-ORDER3", gt, "left operand first", str(zargs), f"zip arguments {zargs}", l)
@@ -562,14 +621,35 @@ def check_equalise(ctx: Ctx, ci: ClassInfo, mi: FuncInfo):
 
 def check_bitwise_cmp(ctx: Ctx, mi: FuncInfo, name: str):
     want = {"eq": ("And", "_eq"), "neq": ("Or", "_neq")}[name]
-    txt = norm(mi.node).replace(" ", "")
-    ok = f"{want[0]}(ex,{want[1]}(x[0],x[1]))" in txt
-    ctx.check(ok, "DP-OPS", mi, f"{name}: {want[0]} over per-bit {want[1]}", "", f"`{name}` does not combine per-bit {want[1]} with {want[0]}", mi.node)
+    role = f"{name}: {want[0]} over per-bit {want[1]}"
+    loops = [l for l in q.for_loops(mi.node) if any(isinstance(c.func, ast.Name) and c.func.id == "zip" for c in q.calls(l.iter))]
+    if len(loops) != 1:
+        ctx.undecided(mi.short, f"{role}: {len(loops)} loops over zip(...)")
+    else:
+        fs, comps = q.fold_step(loops[0]), q.loop_components(loops[0])
+        if fs is None or comps is None:
+            ctx.undecided(mi.short, f"{role}: the loop body is not a single fold step `acc = OP(acc, term)`")
+        else:
+            acc, op, term = fs
+            per = isinstance(term, ast.Call) and isinstance(term.func, ast.Name) and term.func.id == want[1] and sorted(norm(a) for a in term.args) == sorted(comps)
+            ctx.check(op == want[0] and per, "DP-OPS", mi, role, norm(loops[0].body[0]), f"`{norm(loops[0].body[0])}` does not combine per-bit {want[1]}({comps[0]}, {comps[1]}) with {want[0]}", loops[0])
+            unit = {"And": ("true", "True"), "Or": ("false", "False")}[want[0]]
+            init = [n for n in walk_no_nested(mi.node) if isinstance(n, ast.Assign) and isinstance(n.targets[0], ast.Name) and n.targets[0].id == acc and getattr(n, "lineno", 0) < loops[0].lineno]
+            if len(init) == 1:
+                ctx.check(norm(init[0].value) in unit, "SB-FOLDID", mi, f"{name}: the fold starts from the identity of {want[0]}", norm(init[0]), f"`{norm(init[0])}` is not the identity of {want[0]}: the result is constant", init[0])
+            else:
+                ctx.undecided(mi.short, f"{role}: {len(init)} initialisations of the accumulator before the loop")
     if len(_excess_blocks(mi)) == 2:
         for n, a, b, g in _excess_blocks(mi):
-            body = " ".join(norm(s) for s in n.body)
-            w = "And(ex, Not(x))" if name == "eq" else "Or(ex, x)"
-            ctx.check(w in body, "SB-EQUALISE", mi, f"{name}: excess bits must all be clear / any set", body[:50], f"excess handling `{body[:60]}`", n)
+            inner = [l for l in q.for_loops(n, nested=True)]
+            fs = q.fold_step(inner[0]) if len(inner) == 1 else None
+            if fs is None or not isinstance(inner[0].target, ast.Name):
+                ctx.undecided(mi.short, f"{name}: the excess-bit block is not a single fold loop")
+                continue
+            acc, op, term = fs
+            x = inner[0].target.id
+            good = (op == "And" and pat.t(term) == f"Not({x})") if name == "eq" else (op == "Or" and pat.t(term) == x)
+            ctx.check(good, "SB-EQUALISE", mi, f"{name}: excess bits must all be clear / any set", norm(inner[0].body[0]), f"excess handling `{norm(inner[0].body[0])}`: for `{name}` an excess bit that is set must make the result {'false' if name == 'eq' else 'true'}", n)
 
 
 # ------------------------------------------------------------------------------------- widening
@@ -666,41 +746,165 @@ def check_polarity(ctx: Ctx, te: FuncInfo):
     ctx.check("node.body" in srcs.get("body", "") and "node.orelse" in srcs.get("orelse", ""), "MP-polarity", vi, "body/orelse lists come from node.body/node.orelse", "", f"{srcs}", vi.node)
     # index unrolling
     vs = ci.methods.get("visit_Subscript")
-    lp = [l for l in q.for_loops(vs.node) if "enumerate" in norm(l.iter)]
-    ok = len(lp) == 1 and norm(lp[0].iter).replace(" ", "") == "enumerate(elts[1:])"
-    if ok:
-        i, x = (norm(e) for e in lp[0].target.elts)
-        txt = norm(lp[0]).replace(" ", "")
-        ok = f"comparators=[ast.Constant(value={i}+1)]" in txt and f"body={x}" in txt and "orelse=ifex" in txt and "left=node.slice" in txt and "ops=[ast.Eq()]" in txt
-        base = [n for n in walk_no_nested(vs.node) if isinstance(n, ast.Assign) and norm(n.targets[0]) == "ifex" and norm(n.value) == "elts[0]"]
-        ok = ok and len(base) == 1
-    ctx.check(ok, "MP-polarity", vs, "constant-list lookup: element k selected iff index == k", "", "the unrolled lookup compares the index with a different offset than the element it selects", vs.node)
+    check_const_lookup(ctx, vs)
     ce = repo.func("ast2ast.astrewriter.create_if_exp")
-    inner = ce.nested.get("_create_if_exp")
-    txt = norm(inner.node).replace(" ", "") if inner else ""
-    ok = "comparators=[ast.Constant(value=i)]" in txt and "body=access_ij(i,j)" in txt and "orelse=_create_if_exp(i+1)" in txt and "left=ast.Name(id=iname,ctx=ast.Load())" in txt and "comparators=[ast.Constant(value=j)]" in txt and "ifi==max_iand(jnameisNoneorj==max_j)" in txt
-    ctx.check(ok, "MP-polarity", ce, "variable index: L[k] selected iff i == k, last element as default", "", "the generated selection chain compares with a different index than the element it accesses", ce.node)
-    acc = ce.nested.get("access_ij")
-    txt = norm(acc.node).replace(" ", "") if acc else ""
-    ctx.check("slice=ast.Constant(value=i)" in txt and "slice=ast.Constant(value=j)" in txt and "value=fsub" in txt, "MP-polarity", ce, "L[i][j]: outer index first", "", "", ce.node)
+    check_create_if_exp(ctx, ce)
     # for unrolling
     vf = ci.methods.get("visit_For")
-    lp = [l for l in q.for_loops(vf.node) if norm(l.iter) == "iter"]
-    ok = len(lp) == 1
-    if ok:
-        txt = norm(vf.node).replace(" ", "")
-        ok = "rolls.extend(" in txt and "[::-1]" not in txt and "reversed(" not in txt and "rolls.insert" not in txt and "forbinnode.body" in txt
-    ctx.check(ok, "MP-polarity", vf, "iterations unrolled front to back, body statements in order", "", "the unrolled iterations are emitted in another order", vf.node)
-    ctx.check("NameValReplacer(node.target.id,_val)" in norm(vf.node).replace(" ", ""), "MP-polarity", vf, "loop variable replaced by the current element", "", "", vf.node)
+    check_for_unroll(ctx, vf)
     rm = repo.func("ast2ast.replacemultitargetassign.ReplaceMultiTargetAssign.visit_Assign")
-    txt = norm(rm.node).replace(" ", "")
-    ok = txt.count("ast.Name(id=node.targets[0].elts[i].id)") == 2 and txt.count("slice=ast.Constant(value=i)") == 2 and txt.count("foriinrange(len(node.targets[0].elts))") == 2
-    ctx.check(ok, "MP-polarity", rm, "a, b = t -> a = t[0]; b = t[1] (same index on both sides)", "", "target k is assigned element j != k", rm.node)
+    check_multi_target(ctx, rm)
     # assignment: self-referencing reassignment goes through a temporary
     va = ci.methods.get("visit_Assign")
-    txt = norm(va.node).replace(" ", "")
-    ok = "new_targ=ast.Name(id=f'__{target}'" in txt and "ast.Assign(targets=[new_targ],value=self.visit(node.value))" in txt and "ast.Assign(targets=node.targets,value=new_targ)" in txt
-    ctx.check(ok, "MP-polarity", va, "x = f(x) -> __x = f(x); x = __x", "", "", va.node)
+    check_self_reassign(ctx, va)
+
+
+def check_const_lookup(ctx: Ctx, vs: FuncInfo):
+    role = "constant-list lookup: element k selected iff index == k"
+    lp = [l for l in q.for_loops(vs.node) if isinstance(l.iter, ast.Call) and pat.t(l.iter.func) == "enumerate" and isinstance(l.target, ast.Tuple) and len(l.target.elts) == 2]
+    if len(lp) != 1:
+        ctx.undecided(vs.short, f"{role}: {len(lp)} enumerate loops")
+        return
+    l = lp[0]
+    i, x = (norm(e) for e in l.target.elts)
+    src = l.iter.args[0]
+    start = pat.t(l.iter.args[1]) if len(l.iter.args) > 1 else next((pat.t(k.value) for k in l.iter.keywords if k.arg == "start"), "0")
+    if not (isinstance(src, ast.Subscript) and isinstance(src.slice, ast.Slice) and pat.t(src.slice.lower) == "1" and src.slice.upper is None and src.slice.step is None and isinstance(src.value, ast.Name)):
+        ctx.undecided(vs.short, f"{role}: the loop does not range over <elements>[1:]")
+        return
+    E = src.value.id
+    # element at position p of <E>[1:] is E[p + 1]: the index compared must be enumerate's counter + 1 - start
+    want_cmp = {"0": [f"{i}+1", f"1+{i}"], "1": [i]}.get(start)
+    if want_cmp is None:
+        ctx.undecided(vs.short, f"{role}: enumerate start {start}")
+        return
+    binds = pat.bindings(vs.node)
+    cmp_ok = lambda e: pat.is_ctor(e, "Compare", {"left": "node.slice", "ops": "[ast.Eq()]", "comparators": lambda c: pat.is_const_of(pat.only_elt(c), want_cmp, binds)}, binds)
+    ife = pat.term_rule(ctx, "MP-polarity", vs, role, "IfExp", {"test": cmp_ok, "body": x}, f"the unrolled lookup does not select element `{x}` exactly when the index equals its position ({' / '.join(want_cmp)})", root=l)
+    if ife is None:
+        return
+    asg = vs.pm.get(ife)
+    acc = asg.targets[0].id if isinstance(asg, ast.Assign) and isinstance(asg.targets[0], ast.Name) else None
+    orelse = pat.field(ife, "orelse")
+    ctx.check(acc is not None and isinstance(orelse, ast.Name) and orelse.id == acc, "MP-polarity", vs, "the chain built so far is the else-branch of the next test", norm(ife)[:80], "the if-expression chain is not extended through its else-branch: earlier elements are lost", ife)
+    base = [n for n in walk_no_nested(vs.node) if isinstance(n, ast.Assign) and acc and norm(n.targets[0]) == acc and n is not asg]
+    ctx.check(len(base) == 1 and pat.t(base[0].value) == f"{E}[0]", "MP-polarity", vs, "element 0 is the default of the chain", norm(base[0]) if base else "", f"the chain does not start from `{E}[0]`", base[0] if base else l)
+
+
+def check_create_if_exp(ctx: Ctx, ce: FuncInfo):
+    role = "variable index: L[k] selected iff i == k, last element as default"
+    inner, acc = ce.nested.get("_create_if_exp"), ce.nested.get("access_ij")
+    if inner is None or acc is None:
+        ctx.undecided(ce.short, f"{role}: helper functions not found")
+        return
+    nname, iname, max_i, jname, max_j = ce.params[:5]
+    i, j = inner.params[:2]
+    binds = pat.bindings(inner.node)
+    cmp_i = lambda e: pat.is_ctor(e, "Compare", {"left": lambda x_: pat.is_name_of(x_, iname), "ops": "[ast.Eq()]", "comparators": lambda c: pat.is_const_of(pat.only_elt(c), i)}, binds)
+    cmp_j = lambda e: pat.is_ctor(e, "Compare", {"left": lambda x_: pat.is_name_of(x_, jname), "ops": "[ast.Eq()]", "comparators": lambda c: pat.is_const_of(pat.only_elt(c), j)}, binds)
+    both = lambda e: pat.is_ctor(e, "BoolOp", {"op": "ast.And()", "values": lambda v: isinstance(v, ast.List) and len(v.elts) == 2 and cmp_i(pat.look_through(v.elts[0], binds)) and cmp_j(pat.look_through(v.elts[1], binds))}, binds)
+    ifs = pat.ctor_calls(inner.node, "IfExp")
+    if len(ifs) != 2:
+        ctx.undecided(ce.short, f"{role}: {len(ifs)} if-expression constructors (one- and two-index case expected)")
+    else:
+        for c in ifs:
+            facts = [(pat.t(e), pol) for e, pol in guard_facts(inner, c)]
+            two = any(pol and f == f"{jname}isnotNone" for f, pol in facts)
+            test = pat.field(c, "test", binds)
+            t_ok = both(test) if two else cmp_i(test)
+            body_ok = pat.t(pat.field(c, "body", binds)) == f"{acc.name}({i},{j})"
+            nxt = pat.field(c, "orelse", binds)
+            if two:
+                b2 = pat.bindings(inner.node)
+                n_ok = isinstance(nxt, ast.Call) and pat.t(nxt.func) == inner.name and len(nxt.args) == 2 and pat.t(pat.look_through(nxt.args[0], b2)) == f"{i}if{j}<{max_j}else{i}+1" and pat.t(pat.look_through(nxt.args[1], b2)) == f"{j}+1if{j}<{max_j}else0"
+            else:
+                n_ok = pat.t(nxt) in (f"{inner.name}({i}+1)", f"{inner.name}({i}+1,None)")
+            ctx.check(t_ok and body_ok and n_ok, "MP-polarity", ce, role + (" (two indices)" if two else " (one index)"), norm(c)[:80], f"the generated selection `{norm(c)[:160]}` does not test `index == k`, select element k, and continue with the next position", c)
+    base = [r for r in q.returns(inner) if pat.t(r.value) == f"{acc.name}({i},{j})"]
+    ok = False
+    if len(base) == 1:
+        f = [(pat.t(e), pol) for e, pol in guard_facts(inner, base[0])]
+        pos = {f_ for f_, pol in f if pol}
+        ok = f"{i}=={max_i}" in pos and (f"{jname}isNoneor{j}=={max_j}" in pos or f"{j}=={max_j}or{jname}isNone" in pos)
+    pat.frag_rule(ctx, "MP-polarity", ce, "the last position is the default of the chain", ok, [(len(base) == 1, "the chain does not stop exactly at the last position (max_i, max_j): an element is unreachable or the recursion overruns")], inner.node)
+    start = [r for r in q.returns(ce) if isinstance(r.value, ast.Call) and pat.t(r.value.func) == inner.name]
+    ctx.check(len(start) == 1 and pat.t(start[0].value.args[0]) == "0", "MP-polarity", ce, "the chain starts at position 0", norm(start[0]) if start else "", "the selection chain does not start at index 0", start[0] if start else ce.node)
+    # access_ij: L[i] / L[i][j], outer index first
+    ab = pat.bindings(acc.node)
+    subs = pat.ctor_calls(acc.node, "Subscript")
+    outer = [c for c in subs if pat.is_name_of(pat.field(c, "value", ab), nname)]
+    ok1 = len(outer) == 1 and pat.is_const_of(pat.field(outer[0], "slice", ab), acc.params[0])
+    innr = [c for c in subs if c not in outer]
+    ok2 = len(innr) == 1 and outer and pat.field(innr[0], "value", ab) is outer[0] and pat.is_const_of(pat.field(innr[0], "slice", ab), acc.params[1])
+    pat.frag_rule(ctx, "MP-polarity", ce, "L[i][j]: outer index first", ok1 and ok2, [(len(subs) == 2, f"the element access is built as {[norm(c)[:70] for c in subs]}: not `{nname}[i]` then `[j]`")], acc.node)
+
+
+def check_for_unroll(ctx: Ctx, vf: FuncInfo):
+    role = "iterations unrolled front to back, body statements in order"
+    lp = [l for l in q.for_loops(vf.node) if isinstance(l.iter, ast.Name)]
+    if len(lp) != 1:
+        ctx.undecided(vf.short, f"{role}: {len(lp)} loops over the unrolled iterable")
+        return
+    l = lp[0]
+    binds = {n.targets[0].id: n.value for n in walk_no_nested(vf.node) if isinstance(n, ast.Assign) and isinstance(n.targets[0], ast.Name)}
+    # the iterable is not reversed on the way
+    srcs = [n.value for n in walk_no_nested(vf.node) if isinstance(n, ast.Assign) and isinstance(n.targets[0], ast.Name) and n.targets[0].id == l.iter.id]
+    rev = any(q.is_reversed(v) is not None or "sorted(" in norm(v) for v in srcs)
+    ctx.check(not rev and bool(srcs), "MP-polarity", vf, "elements are visited in their own order", "", f"the iterable is re-ordered before unrolling ({[norm(v) for v in srcs]})", l)
+    adds = [c for c in q.calls(l) if isinstance(c.func, ast.Attribute) and c.func.attr in ("extend", "append", "insert")]
+    acc = {norm(c.func.value) for c in adds}
+    bad = [c for c in adds if c.func.attr == "insert" or any(q.is_reversed(a) is not None for a in c.args)]
+    if not adds or len(acc) != 1:
+        ctx.undecided(vf.short, f"{role}: the unrolled statements are not collected in one list")
+        return
+    ctx.check(not bad, "MP-polarity", vf, role, f"{len(adds)} appends to {sorted(acc)[0]}", f"`{norm(bad[0]) if bad else ''}` emits unrolled statements out of order", bad[0] if bad else l)
+    comps = [c for c in ast.walk(l) if isinstance(c, (ast.ListComp, ast.GeneratorExp)) and pat.t(c.generators[0].iter) in ("node.body", "new_body")]
+    if not comps:
+        ctx.undecided(vf.short, f"{role}: body statements are not mapped by comprehensions over node.body")
+    rep = [c for c in q.calls(l) if pat.ctor_name(c) == "NameValReplacer"]
+    if not rep:
+        ctx.undecided(vf.short, "loop variable substitution not found")
+    else:
+        val = None
+        for n in walk_no_nested(l):
+            if isinstance(n, ast.Assign) and len(rep[0].args) == 2 and norm(n.targets[0]) == norm(rep[0].args[1]):
+                val = n
+        ctx.check(len(rep[0].args) == 2 and pat.t(rep[0].args[0]) == "node.target.id" and val is not None, "MP-polarity", vf, "loop variable replaced by the current element", norm(rep[0]), f"`{norm(rep[0])}` does not substitute the loop variable by the element of this iteration", rep[0])
+
+
+def check_multi_target(ctx: Ctx, rm: FuncInfo):
+    role = "a, b = t -> a = t[0]; b = t[1] (same index on both sides)"
+    comps = [c for c in ast.walk(rm.node) if isinstance(c, (ast.ListComp, ast.GeneratorExp)) and pat.t(c.generators[0].iter) == "range(len(node.targets[0].elts))"]
+    if len(comps) < 1:
+        ctx.undecided(rm.short, f"{role}: no comprehension over range(len(node.targets[0].elts))")
+        return
+    for c in comps:
+        i = norm(c.generators[0].target)
+        asg = [x for x in pat.ctor_calls(c.elt, "Assign")]
+        if len(asg) != 1:
+            ctx.undecided(rm.short, f"{role}: the comprehension does not build one assignment per target")
+            continue
+        a = asg[0]
+        tgt = pat.only_elt(pat.field(a, "targets"))
+        val = pat.field(a, "value")
+        ok = pat.is_name_of(tgt, f"node.targets[0].elts[{i}].id") and pat.is_ctor(val, "Subscript", {"slice": lambda e: pat.is_const_of(e, i)})
+        ctx.check(ok and not c.generators[0].ifs, "MP-polarity", rm, role, norm(a)[:90], f"`{norm(a)[:160]}`: target k is not assigned element k", a)
+
+
+def check_self_reassign(ctx: Ctx, va: FuncInfo):
+    role = "x = f(x) -> __x = f(x); x = __x"
+    binds = pat.bindings(va.node)
+    rets = [r for r in q.returns(va) if isinstance(r.value, ast.List) and len(r.value.elts) == 2 and all(pat.ctor_name(e) == "Assign" for e in r.value.elts)]
+    if len(rets) != 1:
+        ctx.undecided(va.short, f"{role}: no return of two generated assignments")
+        return
+    first, second = rets[0].value.elts
+    tmp = pat.only_elt(pat.field(first, "targets", binds))
+    tmp = pat.look_through(tmp, binds) if tmp is not None else None
+    tname = pat.field(tmp, "id") if pat.ctor_name(tmp) == "Name" else None
+    fresh = isinstance(tname, ast.JoinedStr) and pat.t(tname).startswith("f'__{")
+    ok = fresh and pat.t(pat.field(first, "value", binds)) in ("self.visit(node.value)", "node.value") and pat.t(pat.field(second, "targets", binds)) == "node.targets" and pat.look_through(pat.field(second, "value"), binds) is tmp
+    ctx.check(ok, "MP-polarity", va, role, f"{norm(first)[:60]} ; {norm(second)[:60]}", f"the self-referencing re-assignment is rewritten to `{norm(first)[:80]}` ; `{norm(second)[:80]}`: the new value must be computed into a reserved temporary first and the target assigned from it", rets[0])
 
 
 # ------------------------------------------------------------------------------------- idioms
@@ -750,20 +954,40 @@ def check_idioms(ctx: Ctx):
     same(fi, t, mk("xor", [a, b, c]), "full adder sum = a ^ b ^ c")
     # ripple adder
     add = repo.func("types.qint.QintImp.add")
-    lp = [l for l in q.for_loops(add.node) if "zip" in norm(l.iter)]
-    ok = len(lp) == 1
-    if ok:
-        txt = norm(lp[0]).replace(" ", "")
-        init = [n for n in walk_no_nested(add.node) if isinstance(n, ast.Assign) and norm(n.targets[0]) == "carry" and not q.contains(lp[0], n)]
-        ok = "carry,sum=_full_adder(carry,x[0],x[1])" in txt and "sums.append(sum)" in txt and len(init) == 1 and norm(init[0].value) == "False" and q.reversal_parity(lp[0].iter)[1] == 0
-    ctx.check(ok, "RW-IDIOM", add, "ripple adder: carry-in false, carry threaded LSB to MSB, sums appended in order", "", "the carry chain of QintImp.add is broken (carry not threaded, wrong initial carry, or bits visited in another order)", add.node)
+    check_ripple(ctx, add)
     sub = repo.func("types.qint.QintImp.sub")
     check_sub(ctx, sub)
     check_shift_add(ctx, repo.func("types.qint.QintImp.mul_even_const"))
     bn = repo.func("types.qtype.Qtype.bitwise_not")
-    ctx.check(norm(q.returns(bn)[0].value).replace(" ", "") == "(v[0],list(map(Not,v[1])))", "RW-IDIOM", bn, "bitwise not = Not on every bit, in order", "", "", bn.node)
+    v = bn.params[0]
+    r = q.returns(bn)
+    bits = r[0].value.elts[1] if len(r) == 1 and isinstance(r[0].value, ast.Tuple) and len(r[0].value.elts) == 2 else None
+    if bits is None:
+        ctx.undecided(bn.short, "bitwise not: the result is not returned as a (type, bits) pair")
+    else:
+        core = q.strip_wrappers(bits)
+        as_map = isinstance(core, ast.Call) and pat.t(core.func) == "map" and len(core.args) == 2 and pat.t(core.args[1]) == f"{v}[1]"
+        as_comp = isinstance(core, ast.ListComp) and pat.t(core.generators[0].iter) == f"{v}[1]" and not core.generators[0].ifs
+        if as_map:
+            ctx.check(pat.t(core.args[0]) == "Not", "RW-IDIOM", bn, "bitwise not = Not on every bit, in order", norm(bits), f"`{norm(bits)}` maps `{norm(core.args[0])}` over the bits, not Not", bits)
+        elif as_comp:
+            ctx.check(pat.t(core.elt) == f"Not({norm(core.generators[0].target)})", "RW-IDIOM", bn, "bitwise not = Not on every bit, in order", norm(bits), f"`{norm(bits)}` does not negate each bit", bits)
+        else:
+            pat.frag_rule(ctx, "RW-IDIOM", bn, "bitwise not = Not on every bit, in order", False, [(q.is_reversed(bits) is not None, f"`{norm(bits)}` reverses the bit order")], bits)
+        ctx.check(pat.t(r[0].value.elts[0]) == f"{v}[0]", "RW-IDIOM", bn, "bitwise not keeps the operand's type", "", f"the result type is `{norm(r[0].value.elts[0])}`", r[0])
     bg = repo.func("types.qint.QintImp.bitwise_generic")
-    ctx.check("[op(a,b)fora,binzip(tleft_e[1],tright_e[1])]" in norm(bg.node).replace(" ", ""), "RW-IDIOM", bg, "bitwise ops pair bit k with bit k", "", "", bg.node)
+    opn = bg.params[1] if bg.params and bg.params[0] in ("cls", "self") else bg.params[0]
+    comps = [c for c in ast.walk(bg.node) if isinstance(c, (ast.ListComp, ast.GeneratorExp)) and any(isinstance(x.func, ast.Name) and x.func.id == "zip" for x in q.calls(c.generators[0].iter))]
+    if len(comps) != 1 or not (isinstance(comps[0].generators[0].target, ast.Tuple) and len(comps[0].generators[0].target.elts) == 2):
+        ctx.undecided(bg.short, "bitwise ops: no single comprehension over zip(left bits, right bits)")
+    else:
+        g = comps[0].generators[0]
+        ab = sorted(norm(e) for e in g.target.elts)
+        e = comps[0].elt
+        ok = isinstance(e, ast.Call) and pat.t(e.func) == opn and sorted(norm(x) for x in e.args) == ab and not g.ifs and q.reversal_parity(g.iter)[1] == 0
+        zs = [x for x in q.calls(g.iter) if isinstance(x.func, ast.Name) and x.func.id == "zip"][0]
+        ok = ok and len(zs.args) == 2 and all(pat.t(x).endswith("[1]") for x in zs.args) and not any(q.is_reversed(x) is not None for x in zs.args)
+        ctx.check(ok, "RW-IDIOM", bg, "bitwise ops pair bit k with bit k", norm(comps[0]), f"`{norm(comps[0])}` does not apply the connective to bit k of the left and bit k of the right operand", comps[0])
     for nm, op in (("bitwise_xor", "Xor"), ("bitwise_and", "And"), ("bitwise_or", "Or")):
         m = repo.func(f"types.qint.QintImp.{nm}")
         ctx.check(norm(q.returns(m)[0].value).replace(" ", "") == f"cls.bitwise_generic({op},tleft,tright)", "DP-OPS", m, f"{nm} -> {op}", "", f"{nm} applies another connective", m.node)
@@ -805,19 +1029,37 @@ def check_sub(ctx: Ctx, sub: FuncInfo):
 def check_shift_add(ctx: Ctx, fi: FuncInfo):
     """x * c for even c: c = 2**n + r with n = floor(log2 c); the product is (x << n) + x * r, so the second addend
     must multiply by the whole remainder r (recursively, r is even too), not shift by some function of r"""
-    txt = norm(fi.node).replace(" ", "")
-    ok = "while2**n<=const:" in txt and "n+=1" in txt and "if2**n>const:" in txt and "n-=1" in txt and "r=const-2**n" in txt
-    ctx.check(ok, "SB-SHIFTADD", fi, "n = floor(log2 const), r = const - 2**n", "", "the leading power of two / remainder of the constant is no longer computed as n = floor(log2 c), r = c - 2**n", fi.node)
+    C = fi.params[1]
     adds = [c for c in q.calls(fi.node) if isinstance(c.func, ast.Attribute) and c.func.attr == "add" and len(c.args) == 2]
     if len(adds) != 1:
         raise AnchorError(fi.short, "expected one add of the two partial products")
     first, second = adds[0].args
     binds = {n.targets[0].id: n.value for n in walk_no_nested(fi.node) if isinstance(n, ast.Assign) and isinstance(n.targets[0], ast.Name)}
-    shifted = binds.get("t_num_r")
-    ok1 = "t_num_r" in norm(first) and isinstance(shifted, ast.Call) and norm(shifted.func).endswith("shift_left") and norm(shifted.args[1]) == "n"
-    ctx.check(ok1, "SB-SHIFTADD", fi, "first addend is x << n", norm(first)[:50], f"first addend `{norm(first)}`", adds[0])
-    rec = isinstance(second, ast.Call) and norm(second.func).endswith("mul_even_const") and len(second.args) >= 2 and norm(second.args[1]) == "r" and norm(second.args[0]) == fi.params[0]
-    guard = any(pol and norm(e).replace(" ", "") == "r>0" for e, pol in guard_facts(fi, adds[0]))
+    sh = [c for c in q.calls(fi.node) if isinstance(c.func, ast.Attribute) and c.func.attr == "shift_left" and len(c.args) == 2]
+    if len(sh) > 1:
+        lead = [c for c in sh if isinstance(fi.pm.get(c), ast.Assign) and isinstance(fi.pm.get(c).targets[0], ast.Name) and fi.pm.get(c).targets[0].id in q.names_in(first)]
+        sh = lead if len(lead) == 1 else sh
+    if len(sh) != 1 or not isinstance(sh[0].args[1], ast.Name):
+        raise AnchorError(fi.short, "expected one shift_left(<operand>, <n>) forming the leading partial product")
+    N = sh[0].args[1].id
+    sh_asg = fi.pm.get(sh[0])
+    SH = sh_asg.targets[0].id if isinstance(sh_asg, ast.Assign) and isinstance(sh_asg.targets[0], ast.Name) else None
+    ctx.check(SH is not None and SH in q.names_in(first), "SB-SHIFTADD", fi, "first addend is x << n", norm(first)[:50], f"first addend `{norm(first)}` is not the operand shifted by `{N}`", adds[0])
+    # the remainder is what is left of the constant after the leading power of two that was shifted by
+    rdefs = [n for n in walk_no_nested(fi.node) if isinstance(n, ast.Assign) and isinstance(n.targets[0], ast.Name) and pat.t(n.value) in (f"{C}-2**{N}", f"{C}-(1<<{N})", f"{C}-(2**{N})")]
+    if len(rdefs) != 1:
+        cand = [n for n in walk_no_nested(fi.node) if isinstance(n, ast.Assign) and isinstance(n.targets[0], ast.Name) and isinstance(n.value, ast.BinOp) and isinstance(n.value.op, ast.Sub) and pat.t(n.value.left) == C]
+        pat.frag_rule(ctx, "SB-SHIFTADD", fi, f"remainder r = {C} - 2**{N}", False, [(len(cand) == 1, f"the remainder is `{norm(cand[0]) if cand else ''}`, not the constant minus the power of two 2**{N} that the first addend was shifted by")], cand[0] if cand else fi.node)
+        return
+    R = rdefs[0].targets[0].id
+    ctx.ok("SB-SHIFTADD", fi, f"remainder r = {C} - 2**{N}", norm(rdefs[0]), rdefs[0])
+    # n itself: any n with 2**n <= const gives a correct decomposition as long as r >= 0 is handled; the recognised
+    # computations give n = floor(log2 const)
+    txt = pat.t(fi.node)
+    floor_log = (f"while2**{N}<={C}:" in txt and f"{N}+=1" in txt and f"if2**{N}>{C}:" in txt and f"{N}-=1" in txt) or f"{N}={C}.bit_length()-1" in txt
+    pat.frag_rule(ctx, "SB-SHIFTADD", fi, f"{N} = floor(log2 {C})", floor_log, [(f"while2**{N}<={C}:" in txt and f"{N}-=1" not in txt, f"the search loop leaves {N} one past the leading power of two (2**{N} > {C}): the remainder is negative")], fi.node)
+    rec = isinstance(second, ast.Call) and norm(second.func).endswith("mul_even_const") and len(second.args) >= 2 and norm(second.args[1]) == R and norm(second.args[0]) == fi.params[0]
+    guard = any(pol and norm(e).replace(" ", "") == f"{R}>0" for e, pol in guard_facts(fi, adds[0]))
     if isinstance(second, ast.Call) and norm(second.func).endswith("shift_left"):
         ctx.fail("SB-SHIFTADD", fi, "second addend is x * r", f"the second addend is `{norm(second)[:70]}`: a single shift multiplies by a power of two (here 2**({norm(second.args[1])})), which equals the remainder r only for r in {{2, 4}}: x * 6 = (x << 2) + (x << 1) works, x * 14 = (x << 3) + (x << 3) does not", adds[0])
     else:
@@ -825,7 +1067,7 @@ def check_shift_add(ctx: Ctx, fi: FuncInfo):
     # operand brought to the result width before shifting (the ripple adder has no carry-out)
     fills = [n for n in walk_no_nested(fi.node) if isinstance(n, ast.Assign) and norm(n.targets[0]) == fi.params[0] and isinstance(n.value, ast.Call) and norm(n.value.func).endswith(".fill")]
     idx_fill = fi.body.index(fills[0]) if fills and fills[0] in fi.body else None
-    idx_shift = next((i for i, st in enumerate(fi.body) if isinstance(st, ast.Assign) and norm(st.targets[0]) == "t_num_r"), None)
+    idx_shift = next((i for i, st in enumerate(fi.body) if st is sh_asg), None)
     ctx.check(idx_fill is not None and idx_shift is not None and idx_fill < idx_shift and norm(fills[0].value.func.value) == fi.params[2], "SB-SHIFTADD", fi, "operand widened to the result type before the partial products are formed", "", "the partial products are formed at the operand's own width: the adder drops the carry out of the wider product", fi.node)
 
 
@@ -836,7 +1078,17 @@ def check_pipeline(ctx: Ctx):
     ctx.check(order == want, "RW-ORDER", fi, "normalisation passes in dependency order", str(order), f"pass order is {order}; type annotations and multi-target assignments must be normalised before the rewriter, constants folded before and after", fi.node)
     ta = ctx.repo.func("ast2logic.t_ast.translate_ast")
     lp = [l for l in q.for_loops(ta.node) if norm(l.iter) == "fun.body"]
-    ctx.check(len(lp) == 1 and "exps.append(s_exps)" in norm(lp[0]) and q.reversal_parity(lp[0].iter)[1] == 0, "RW-ORDER", ta, "statements translated in source order, every definition kept", "", "", ta.node)
+    if len(lp) != 1:
+        ctx.undecided(ta.short, "statement loop over fun.body not found")
+    else:
+        ctx.check(q.reversal_parity(lp[0].iter)[1] == 0, "RW-ORDER", ta, "statements translated in source order", norm(lp[0].iter), f"`{norm(lp[0].iter)}` visits the statements in another order", lp[0])
+        tr = [n for n in lp[0].body if isinstance(n, ast.Assign) and isinstance(n.value, ast.Call) and pat.t(n.value.func).endswith("translate_statement")]
+        keep = [c for c in q.calls(lp[0]) if isinstance(c.func, ast.Attribute) and c.func.attr in ("append", "extend") and tr and isinstance(tr[0].targets[0], ast.Tuple) and norm(c.args[0]) == norm(tr[0].targets[0].elts[0])]
+        if not tr:
+            ctx.undecided(ta.short, "translate_statement call not found in the statement loop")
+        else:
+            facts = [f for k in keep for f in guard_facts(ta, k) if q.contains(lp[0], f[0])]
+            ctx.check(len(keep) == 1 and not facts, "RW-ORDER", ta, "every statement's definitions are kept", norm(keep[0]) if keep else "", "the definitions returned for a statement are not (unconditionally) added to the result", lp[0])
 
 
 def check_modmask(ctx: Ctx):
@@ -930,3 +1182,63 @@ def check_const_table(ctx: Ctx):
         ctx.check(bool(ends_in_if or saves), "DP-STALE", m, "a recorded scalar is spliced in as a literal only if conditional assignments end the record", f"visit_If: {[norm(x)[:40] for x in ends_in_if + saves]}", f"`{norm(c)}` substitutes the literal recorded for a name, but visit_If visits both branch bodies unconditionally and never ends the records they make: after `i = 1` / `if c: i = 2` the table says i == 2 whatever c is, so `l[i]` becomes l[2]", c)
     else:
         ctx.ok("DP-STALE", rw.methods["visit_Subscript"], "no consumer turns a recorded scalar into a literal node", "conditional records cannot reach the translation as literals", nontrivial=False)
+
+
+def check_pow(ctx: Ctx, vb: FuncInfo):
+    """a ** n with a literal n > 0 is unrolled into a product of exactly n factors `a`; a ** 0 is 1"""
+    role = "a ** n -> product of n factors a; a ** 0 -> 1"
+    loops = [l for l in q.for_loops(vb.node, nested=True) if isinstance(l.iter, ast.Call) and pat.t(l.iter.func) == "range" and "node.right.value" in pat.t(l.iter)]
+    if len(loops) != 1:
+        ctx.undecided(vb.short, f"{role}: no single unrolling loop over range(<exponent>)")
+        return
+    l = loops[0]
+    facts = [(norm(e), pol) for e, pol in guard_facts(vb, l)]
+    ctx.check(any(pol and "ast.Pow" in f for f, pol in facts), "DP-OPS", vb, "the unrolling applies to ** only", "", f"the multiplication loop is not guarded by the operator being ast.Pow (guards {facts})", l)
+    ctx.check(any(pol and "node.right.value>0" in f.replace(" ", "") for f, pol in facts) or any(pol and "node.right.value>=1" in f.replace(" ", "") for f, pol in facts), "DP-OPS", vb, "unrolled only for a positive literal exponent", "", f"the unrolling is not guarded by `exponent > 0` (guards {[f for f, _ in facts]})", l)
+    mul = pat.term_rule(ctx, "DP-OPS", vb, "each step multiplies the running product by the base", "BinOp", {"op": "ast.Mult()", "left": lambda e: pat.t(e) != "", "right": lambda e: pat.t(e) != ""}, "the unrolled step is not a multiplication", root=l)
+    if mul is None:
+        return
+    asg = vb.pm.get(mul)
+    if not (isinstance(asg, ast.Assign) and isinstance(asg.targets[0], ast.Name)):
+        ctx.undecided(vb.short, f"{role}: the product is not accumulated in a local name")
+        return
+    acc = asg.targets[0].id
+    ops = {pat.t(pat.field(mul, "left")), pat.t(pat.field(mul, "right"))}
+    ctx.check(ops == {acc, "node.left"}, "DP-OPS", vb, "running product times base", norm(mul), f"`{norm(mul)}` does not multiply the running product `{acc}` by the base `node.left`", mul)
+    inits = [n for n in ast.walk(vb.node) if isinstance(n, ast.Assign) and isinstance(n.targets[0], ast.Name) and n.targets[0].id == acc and n is not asg]
+    if len(inits) != 1:
+        ctx.undecided(vb.short, f"{role}: {len(inits)} initialisations of the running product")
+        return
+    init, count = pat.t(inits[0].value), pat.t(l.iter.args[0]) if len(l.iter.args) == 1 else pat.t(l.iter)
+    good = (init == "node.left" and count in ("node.right.value-1",)) or (init in ("ast.Constant(value=1)", "ast.Constant(1)") and count == "node.right.value")
+    known = init in ("node.left", "ast.Constant(value=1)", "ast.Constant(1)") and count.startswith("node.right.value")
+    pat.frag_rule(ctx, "DP-OPS", vb, role, good, [(known, f"the product starts from `{init}` and multiplies `{count}` more times: that is not n factors")], l, f"init {init}, {count} further factors")
+    rets = [r for r in q.returns(vb) if r.value is not None and pat.t(r.value) == acc]
+    ctx.check(len(rets) == 1, "DP-OPS", vb, "the product is what replaces the power", "", "the accumulated product is not returned", l)
+    zero = [r for r in q.returns(vb) if pat.ctor_name(r.value) == "Constant"]
+    if zero:
+        f0 = [(norm(e).replace(" ", ""), pol) for e, pol in guard_facts(vb, zero[0])]
+        ctx.check(pat.t(pat.field(zero[0].value, "value")) == "1" and any(pol and "node.right.value==0" in f for f, pol in f0), "DP-OPS", vb, "a ** 0 -> 1", norm(zero[0]), f"`{norm(zero[0])}` under {[f for f, p_ in f0 if p_]}", zero[0])
+
+
+def check_ripple(ctx: Ctx, add: FuncInfo):
+    role = "ripple adder: carry-in false, carry threaded LSB to MSB, sums appended in order"
+    lp = [l for l in q.for_loops(add.node) if any(isinstance(c.func, ast.Name) and c.func.id == "zip" for c in q.calls(l.iter))]
+    if len(lp) != 1:
+        ctx.undecided(add.short, f"{role}: {len(lp)} loops over zip(...)")
+        return
+    l = lp[0]
+    comps = q.loop_components(l)
+    ctx.check(q.reversal_parity(l.iter)[1] == 0, "RW-IDIOM", add, "bits are added from the least significant up", norm(l.iter), f"`{norm(l.iter)}` visits the bits most significant first: the carry would travel downwards", l)
+    steps = [n for n in l.body if isinstance(n, ast.Assign) and isinstance(n.targets[0], ast.Tuple) and len(n.targets[0].elts) == 2 and isinstance(n.value, ast.Call) and pat.t(n.value.func).endswith("_full_adder")]
+    if len(steps) != 1 or comps is None:
+        ctx.undecided(add.short, f"{role}: no single `carry, sum = _full_adder(...)` step in the loop")
+        return
+    st = steps[0]
+    c_out, s_out = (norm(e) for e in st.targets[0].elts)
+    args = sorted(norm(a) for a in st.value.args)
+    ctx.check(args == sorted([c_out, comps[0], comps[1]]), "RW-IDIOM", add, "the carry out of bit k is the carry into bit k+1", norm(st), f"`{norm(st)}`: the adder step must take the previous carry `{c_out}` and bit k of both operands ({comps[0]}, {comps[1]})", st)
+    init = [n for n in walk_no_nested(add.node) if isinstance(n, ast.Assign) and norm(n.targets[0]) == c_out and not q.contains(l, n)]
+    ctx.check(len(init) == 1 and norm(init[0].value) in ("False", "false"), "RW-IDIOM", add, "carry into bit 0 is false", norm(init[0]) if init else "", f"the initial carry is `{norm(init[0].value) if init else '?'}`", init[0] if init else l)
+    app = [c for c in q.method_calls(l, "append") if len(c.args) == 1 and norm(c.args[0]) == s_out]
+    ctx.check(len(app) == 1, "RW-IDIOM", add, "sum bit k is appended as result bit k", norm(app[0]) if app else "", f"the sum bit `{s_out}` is not appended to the result once per step", l)
